@@ -85,6 +85,58 @@ DEFERRED_CORPUS = [
 ]
 
 
+def parse_Q(block):
+    out = {}
+    for l in block['tags'].get('Q', []):
+        t = l.split()
+        f = dict(x.split('=', 1) for x in t[2:])
+        chunks = [] if f['chunks'] == '-' else [tuple(int(v) for v in c.split(':')) for c in f['chunks'].split(';')]
+        allocs = [] if f['allocs'] == '-' else [tuple(int(v) for v in a.split(':')) for a in f['allocs'].split(';')]
+        out[int(t[1])] = dict(target=int(f['target']), total=int(f['total']), chunks=chunks, allocs=allocs)
+    return out
+
+
+def tempstore_replay(runner, impl, scripts):
+    """tier B for the command-buffer allocator: every allocation and every clear the library made is replayed through the extracted
+    TempStore model FROM THE LIBRARY'S OWN PREVIOUS STATE (blocks, target, total as dumped), with the real base address (mod 4096)
+    of each new block; the block / offset handed out and the state afterwards must be the model's"""
+    lines, expect = [], []
+    def fmt(v):
+        return '%d %d %s' % (v['target'], v['total'], ';'.join('%d:%d:%d' % c for c in v['chunks']) or '-')
+    for name, blocks in impl:
+        prev = {}
+        for i, b in enumerate(blocks):
+            cur = parse_Q(b)
+            for t, v in cur.items():
+                pv = prev.get(t, dict(target=4096, total=0, chunks=[], allocs=[]))
+                if len(v['allocs']) >= len(pv['allocs']) and v['allocs'][:len(pv['allocs'])] == pv['allocs'] and (v['allocs'] != pv['allocs'] or v == pv):
+                    new = v['allocs'][len(pv['allocs']):]
+                    if new:
+                        lines.append('set ' + fmt(pv)); expect.append(None)
+                        nch = len(pv['chunks'])
+                        for (sz, al, ci, off) in new:
+                            base = v['chunks'][ci][0] if 0 <= ci < len(v['chunks']) and ci >= nch else 0
+                            nch = max(nch, ci + 1)
+                            lines.append('alloc %d %d %d' % (sz, al, base)); expect.append((name, i, b['op'], 'A %d %d' % (ci, off)))
+                        lines.append('view'); expect.append((name, i, b['op'], 'V ' + fmt(v)))
+                elif not v['allocs']:
+                    # the buffer was cleared (outermost unlock)
+                    lines.append('set ' + fmt(pv)); expect.append(None)
+                    lines.append('clear'); expect.append(None)
+                    lines.append('view'); expect.append((name, i, b['op'], 'V ' + fmt(v)))
+                # anything else: allocations and a clear inside one operation (a job run): not reconstructible, skipped
+            prev.update(cur)
+    if not lines:
+        return [], 0
+    import subprocess
+    out = subprocess.run([runner, 'tempstore'], input=('\n'.join(lines) + '\n').encode(), stdout=subprocess.PIPE, timeout=600).stdout.decode().split('\n')
+    div = []
+    for e, o in zip(expect, out):
+        if e is not None and e[3] != o.strip():
+            div.append(dict(script=e[0], opn=e[1], op=e[2], impl=e[3], model=o.strip()))
+    return div, sum(1 for e in expect if e is not None and e[3].startswith('A '))
+
+
 def deferred_storage_run(rng, n):
     prof = mgr.profile('C05')
     prof['pals'] = [0, 4, 5, 6, 7, 8]
@@ -93,7 +145,7 @@ def deferred_storage_run(rng, n):
     scripts = DEFERRED_CORPUS + [('d%d' % i, mgr.gen_script(rng.fork('c10d-%d' % i), 70, prof)) for i in range(n)]
     rn = mgrcheck.Runner(PROP)
     if rn.err:
-        return dict(what='build error: %s' % rn.err, opn=0, op='', script='', lines=[]), 0
+        return dict(what='build error: %s' % rn.err, opn=0, op='', script='', lines=[]), 0, [], 0
     # plus ordinary histories with clear() / clearArchetype() and refills: no crash inside the contract (dead slots, stale counts)
     prof2 = dict(mgr.PROFILE_BASIC)
     prof2['weights'] = dict(prof2['weights'], clear=4, cleararch=6, destroynow=14, create=30, lock=3, unlock=5)
@@ -104,8 +156,10 @@ def deferred_storage_run(rng, n):
     if res:
         r = res[0]
         r['lines'] = dict(scripts)[r['script']][:r['opn'] + 1]
-        return r, len(scripts)
-    return None, len(scripts)
+        return r, len(scripts), [], 0
+    runner, _ = vlib.build_runner()
+    tdiv, tn = tempstore_replay(runner, impl, scripts)
+    return None, len(scripts), tdiv, tn
 
 
 def run(tier, seed, replay=None):
@@ -149,9 +203,9 @@ def run(tier, seed, replay=None):
             if any(b['crash'] or (b['tags'].get('A') or ['A missing'])[0] != 'A ok' for n_, bl in emcmp.parse(ko) for b in bl):
                 known.append('%s: %s' % (kf['key'], kf['what']))
     # storage handed out by deferred assigns (the command-buffer allocator): aligned, inside one block, disjoint
-    em_fail, em_n = (None, 0)
+    em_fail, em_n, ts_div, ts_n = (None, 0, [], 0)
     if not replay:
-        em_fail, em_n = deferred_storage_run(rng, 60 if tier == 'quick' else 600)
+        em_fail, em_n, ts_div, ts_n = deferred_storage_run(rng, 60 if tier == 'quick' else 600)
     san_bad, san_n = ([], 0)
     if not replay:
         san_bad, san_n = sanitizer_run(rng, 30 if tier == 'quick' else 300)
@@ -162,6 +216,8 @@ def run(tier, seed, replay=None):
                 'rule': 'random component sets (1-6 components, sizes 0..4096, power-of-two alignments 1..64, capacities 1..16); distinct input lines',
                 'tierA_failures': len(fa) + len(san_bad), 'tierB_divergences': len(div), 'samples': lines[:5]})
     cov['deferred_storage_scripts'] = em_n
+    cov['tempstore_allocations_replayed'] = ts_n
+    cov['tempstore_divergences'] = len(ts_div)
     violations = []
     if em_fail:
         p = vlib.write_replay(PROP, 'failing_script.txt', '# %s\n# at op %d (%s) of script %s\n%s\n' % (em_fail['what'], em_fail['opn'], em_fail['op'], em_fail['script'], '\n'.join(em_fail['lines'])))
@@ -173,8 +229,11 @@ def run(tier, seed, replay=None):
     elif san_bad:
         p = vlib.write_replay(PROP, 'sanitizer_report.txt', '# %s\n' % san_bad[0][1])
         violations.append((p, ''))
-    elif not pr['ok'] or div:
+    elif not pr['ok'] or div or ts_div:
         what = ['proof obligation broken: ' + x for x in pr['failed']]
+        if ts_div:
+            d = ts_div[0]
+            what.append('correspondence TempStore model vs the command-buffer allocator diverges: script %s op %d (%s)\n  impl : %s\n  model: %s' % (d['script'], d['opn'], d['op'], d['impl'], d['model']))
         if div:
             d = div[0]
             what.append('correspondence Layout model vs implementation diverges on: %s\n  impl : %s\n  model: %s' % (d['op'], d['impl'], d['model']))
